@@ -93,6 +93,7 @@ End Fresh.
 Definition cx1 : actx :=
   ACtx (fun _ => Ok "a")
        (fun _ => Ok (doc 0 [sec 1 "a" [sec 2 "b" [leaf 3 "one"]; sec 4 "c" [leaf 5 "two"]]]))
+       (fun _ => true)
        1.
 
 Lemma subsections_seq_reuse :
